@@ -374,6 +374,33 @@ func genAstWriteFacts() {
 				case *ast.IncDecStmt:
 					check(x.X)
 					checkCell(x.X)
+				case *ast.CompositeLit:
+					// RecordSet{liveRecord}: a new view over a record of an existing table without copying it — what the
+					// view does in place (Fix, Select, ExtendRecordCapacity …) then happens to the table's own record
+					if tv, ok := p.Info.Types[x]; ok {
+						isRS := namedTypeName(tv.Type) == queryPkg+".RecordSet"
+						if sl, ok := tv.Type.Underlying().(*types.Slice); ok && namedTypeName(sl.Elem()) == queryPkg+".Record" {
+							isRS = true
+						}
+						if isRS {
+							for _, el := range x.Elts {
+								if kv, ok := el.(*ast.KeyValueExpr); ok {
+									el = kv.Value
+								}
+								switch y := el.(type) {
+								case *ast.CallExpr, *ast.CompositeLit:
+									continue // Copy(), NewRecord(…), NewEmptyRecord(…), a literal record: new memory
+								case *ast.Ident:
+									if y.Name == "nil" || freshLocal(p.Info.Uses[y]) {
+										continue
+									}
+								}
+								cellw = append(cellw, awfact{file: p.base(x.Pos()), fn: funcLabel(fd), lhs: exprText(x), line: p.line(x.Pos()),
+									how: "a record of an existing table is placed in a new record set without a copy"})
+								break
+							}
+						}
+					}
 				case *ast.CallExpr:
 					// in-place bulk writes: copy(dst, …) and sort.*(x) on a slice of syntax nodes
 					argIsTree := func(e ast.Expr) bool {
